@@ -1179,6 +1179,18 @@ def C04St.fail (st : C04St) (ln : Nat) (msg : String) : C04St :=
 def assocGet (l : List (Nat × Nat)) (k : Nat) : Nat := match l.find? (·.1 == k) with | some p => p.2 | none => 0
 def assocSet (l : List (Nat × Nat)) (k v : Nat) : List (Nat × Nat) := (l.filter (·.1 != k)) ++ [(k, v)]
 
+/-- bookkeeping of one host's bounce (what had matured by now reached the host while it was down). -/
+def c04Bounced (st : C04St) (x : Nat) : C04St :=
+  let wasDown := st.down.contains x
+  let late := (st.pendingLate.filter (fun q => q.1 == x && q.2.2 ≤ st.step)).map (fun q => (q.1, q.2.1))
+  let lateC := (st.pendingConn.filter (fun q => q.2.1 == x && q.2.2 ≤ st.step)).map (fun q => (q.1, q.2.1))
+  { st with down := st.down.filter (· != x), inCrash := [], curOp := [], tickers := assocSet st.tickers x 0,
+            members := st.members.filter (·.1 != x),
+            starts := assocSet st.starts x 0, stepsSince := assocSet st.stepsSince x 0,
+            lateIds := st.lateIds ++ late, lateConn := st.lateConn ++ lateC,
+            pendingLate := st.pendingLate.filter (·.1 != x), pendingConn := st.pendingConn.filter (·.2.1 != x),
+            afterBounce := if wasDown then st.afterBounce ++ [x] else st.afterBounce }
+
 def c04Line (st : C04St) (ln : Nat) (l : String) : C04St :=
   let t := toks l
   match t with
@@ -1195,6 +1207,13 @@ def c04Line (st : C04St) (ln : Nat) (l : String) : C04St :=
     { st with curOp := t, inCrash := [x], guardDrops := 0 }
   | ["OP", "ctl", "crash_set", hs] =>
     { st with curOp := t, inCrash := (hs.splitOn ",").map hostTok, guardDrops := 0 }
+  | ["OP", "ctl", "bounce_set", hs] =>
+    let xs := (hs.splitOn ",").map hostTok
+    -- exactly one start per finished incarnation that ran at least one step
+    let st := xs.foldl (fun st x =>
+      if assocGet st.stepsSince x ≥ 1 && !st.down.contains x && assocGet st.starts x != 1 then
+        st.fail ln s!"h{x}: software was started {assocGet st.starts x} times in one incarnation" else st) st
+    { st with curOp := t, inCrash := xs, guardDrops := 0 }
   | "OP" :: "ctl" :: _ => { st with curOp := t }
   | "OP" :: h :: rest =>
     let x := hostTok h
@@ -1272,15 +1291,14 @@ def c04Line (st : C04St) (ln : Nat) (l : String) : C04St :=
       let wasDown := st.down.contains x
       let st := if !wasDown && st.guardDrops != assocGet st.tickers x then
           st.fail ln s!"bounce of h{x} dropped {st.guardDrops} of its {assocGet st.tickers x} background tasks" else st
-      -- what had matured by now reached the host while it was down
-      let late := (st.pendingLate.filter (fun q => q.1 == x && q.2.2 ≤ st.step)).map (fun q => (q.1, q.2.1))
-      let lateC := (st.pendingConn.filter (fun q => q.2.1 == x && q.2.2 ≤ st.step)).map (fun q => (q.1, q.2.1))
-      { st with down := st.down.filter (· != x), inCrash := [], curOp := [], tickers := assocSet st.tickers x 0,
-                members := st.members.filter (·.1 != x),
-                starts := assocSet st.starts x 0, stepsSince := assocSet st.stepsSince x 0,
-                lateIds := st.lateIds ++ late, lateConn := st.lateConn ++ lateC,
-                pendingLate := st.pendingLate.filter (·.1 != x), pendingConn := st.pendingConn.filter (·.2.1 != x),
-                afterBounce := if wasDown then st.afterBounce ++ [x] else st.afterBounce }
+      c04Bounced st x
+    | ["OP", "ctl", "bounce_set", hs] =>
+      -- `Sim::bounce(<several hosts>)`: each selected host restarted exactly once
+      let xs := (hs.splitOn ",").map hostTok
+      let expected := ((xs.filter (fun x => !st.down.contains x)).map (assocGet st.tickers)).sum
+      let st := if st.guardDrops != expected then
+          st.fail ln s!"bounce of hosts {xs} dropped {st.guardDrops} of their {expected} background tasks" else st
+      xs.foldl c04Bounced st
     | ["OP", h, "countof", a] =>
       let _ := h
       let x := hostTok a
